@@ -5,6 +5,8 @@ EXTENDS Core, Json
 CONSTANT TraceFile
 Trace == ndJsonDeserialize(TraceFile)
 VARIABLES l, m, bad, failed, seen
+\* the values (all of them) or the condition class an evaluation ended with
+Outcome(mm) == mm.val
 Init == l = 1 /\ m = Load(<<>>, [k |-> "lit", v |-> Nil]) /\ bad = <<>> /\ failed = FALSE /\ seen = 0
 Next == /\ l <= Len(Trace) /\ l' = l + 1
         /\ LET e == Trace[l] IN
@@ -16,7 +18,7 @@ Next == /\ l <= Len(Trace) /\ l' = l + 1
                                  /\ bad' = IF ok THEN bad ELSE Append(bad, [l |-> l, t |-> e.t, i |-> e.id, why |-> "mark"])
              [] e.ev = "end" -> IF failed THEN UNCHANGED <<m, bad, failed, seen>> ELSE
                                  LET m2 == RunToMark(m, Len(m.out))
-                                     ok == m2.halted /\ m2.val = e.v IN
+                                     ok == m2.halted /\ Outcome(m2) = e.v IN
                                  /\ m' = m2 /\ failed' = ~ok /\ seen' = seen + 1
                                  /\ bad' = IF ok THEN bad ELSE Append(bad, [l |-> l, t |-> e.t, i |-> 0, why |-> "end"])
 Done == (l = Len(Trace) + 1) => PrintT("RESULT" \o ToJson([bad |-> bad, checked |-> seen]))
